@@ -254,7 +254,10 @@ def check(cases, want_spec=True):
         if open_ == 2:
             continue  # aliased CALL/RETURN: unconstrained
         bad = None
-        if w is None:
+        if w is not None:
+            # not even a well-formed machine: also not the architected effect (R0 written, value out of range, ...)
+            bad = "machine not well-formed: " + w
+        else:
             rflags = [int(vm.flag_sign), int(vm.flag_zero), int(vm.flag_overflow), int(vm.flag_carry), int(vm.flag_carry_block)]
             if list(vm.registers) != sregs:
                 k = [i for i in range(16) if vm.registers[i] != sregs[i]][0]
